@@ -39,6 +39,24 @@ def _activations(stmts, which):
     return out
 
 
+def oneshot_cleanup_in_finally(repo):
+    """(ok, where): every cache deactivation / oneshot_exit of Process.oneshot()
+    sits in the `finally` of a try whose body holds the activating yield.
+    Shared with C03: without it an exception inside the block leaves the caches
+    active and a gone process keeps answering from them."""
+    one = repo.func("psutil", "Process.oneshot")
+    fin = set()
+    for t in ast.walk(one.node):
+        if isinstance(t, ast.Try) and t.finalbody and any(
+                isinstance(x, ast.Yield) for b in t.body for x in ast.walk(b)):
+            for b in t.finalbody:
+                fin |= {id(x) for x in ast.walk(b)}
+    de = [c for c in calls_in(one.node) if isinstance(c.func, ast.Attribute)
+          and c.func.attr in ("cache_deactivate", "oneshot_exit")]
+    out = [c for c in de if id(c) not in fin]
+    return (bool(de) and not out), (out[0] if out else None), one
+
+
 def run(ctx):
     repo = Repo(ctx.repo)
     A = Analysis(repo)
